@@ -12,6 +12,10 @@ import time
 from . import env
 
 EVIDENCE_DIR = os.path.join(env.VERIF_DIR, "evidence")
+if os.path.realpath(env.repo_dir()) != "/repo":
+    # a run against a scratch tree (tools/with_patch.sh, sensitivity runs) must not overwrite
+    # the evidence of /repo itself
+    EVIDENCE_DIR = os.path.join(env.scratch_root(), "verif-evidence-of-scratch-trees")
 REPLAY_DIR = os.path.join(env.VERIF_DIR, "replays")
 FINDINGS_FILE = os.path.join(env.VERIF_DIR, "known_findings.json")
 
